@@ -190,7 +190,7 @@ def classify_call(world, body, bb, term, env):
     return None
 
 
-def effects(world, body, depth=3, env=None, top_bb=None, via=None, _visited=None):
+def effects(world, body, depth=3, env=None, top_bb=None, via=None, _visited=None, helpers=True):
     """All effect sites of `body`, including those inside closures it creates and local helpers
     it calls (up to `depth` levels), attributed to the block of `body` where they are triggered."""
     out = []
@@ -231,15 +231,15 @@ def effects(world, body, depth=3, env=None, top_bb=None, via=None, _visited=None
                 if cb is None or cdef in _visited:
                     continue
                 cenv = {k: env_atoms(world, body, cop, env) for k, cop in enumerate(cops)}
-                out += effects(world, cb, depth - 1, cenv, at, via + [cdef], _visited | {cdef})
+                out += effects(world, cb, depth - 1, cenv, at, via + [cdef], _visited | {cdef}, helpers)
         # local helper (the poll of an awaited local future is not a new call: its effects are
         # attributed to the call that created the future)
-        if (t.get("callee") or {}).get("name") in ("poll", "poll_next", "poll_next_unpin"):
+        if not helpers or (t.get("callee") or {}).get("name") in ("poll", "poll_next", "poll_next_unpin"):
             continue
         cb, kind = world.local_callee_body(t)
         if cb is not None and cb.path not in _visited and cb.path != body.path:
             cenv = {k: env_atoms(world, body, cop, env) for k, cop in enumerate(t["ops"])}
-            sub = effects(world, cb, depth - 1, cenv, at, via + [cb.path], _visited | {cb.path})
+            sub = effects(world, cb, depth - 1, cenv, at, via + [cb.path], _visited | {cb.path}, helpers)
             if sub:
                 out += sub
     return out
